@@ -271,6 +271,34 @@ def rule_r5(repo):
     return rr
 
 
+def rule_r6(repo, rule='C02.R6'):
+    rr = RuleResult(rule, 'sibling agreement on 203YYY values: both coders use new_refvals[id] * factor and store the value under the element id')
+    from sa.rules import c01
+    for coder in ('Encoder', 'Decoder'):
+        c01.check_newref(repo, coder, rr)
+        for mode in MODES:
+            m = 'process_new_refval_' + mode
+            fi, recs, _ = run_primitive(repo, coder, m)
+            for r in codec.require_paths(recs, fi):
+                st = [e for e in r.events if e[0] == 'dictstore' and e[1] == 'new_refvals']
+                rr.instance('%s.%s stores the new reference value' % (coder, m))
+                if len(st) != 1 or repr(st[0][2]) != 'D.id':
+                    rr.fail('%s.%s:store' % (coder, m), fi.where, 'path [%s] stores %s in new_refvals (expected exactly new_refvals[descriptor.id] = value)' % (
+                        r.desc(), [(repr(x[2]), repr(x[3])) for x in st] or 'nothing'))
+                    continue
+                v = st[0][3]
+                ios = r.io()
+                if coder == 'Decoder':
+                    ok = ios and repr(v) == 'io0' and ios[0][1] == 'read_int'
+                else:
+                    ok = ios and ios[0][1] == 'write_int' and repr(ios[0][2][0]) == repr(v)
+                if not ok:
+                    rr.fail('%s.%s:value' % (coder, m), fi.where, 'path [%s]: the stored reference %r is not the sign-magnitude value %s' % (
+                        r.desc(), v, 'read' if coder == 'Decoder' else 'written'))
+    rr.require_floor(6)
+    return rr
+
+
 def run(repo, check):
     from sa.rules import c04, c19
     check.run_rule(rule_r1, repo, check.tier)
@@ -284,6 +312,7 @@ def run(repo, check):
         f.rule = 'C02.R4b'
     check.add(r4b)
     check.run_rule(rule_r5, repo)
+    check.run_rule(rule_r6, repo)
     check.assumptions = ['bitstring writes an n-bit unsigned field MSB first and refuses values that do not fit (trusted base)',
                          'byte identity with an independent encoder is a runtime fact and is not decided; the rules decide that the encoder '
                          'and the decoder agree on every field sequence and that the arithmetic is the FM-94 one']
